@@ -630,6 +630,18 @@ Definition mon_C18 (tr : trace) : list failure :=
      | (a, HStart r _ md dl tmd _ _) => c18_judge a r (timeout_vals (omd md)) dl tmd
      | _ => [] end) tr.
 
+(* ---------- nothing of a tunnel stays live once its serving call has returned (C09 / C04 / C14) ----------
+   903: a handler asked for its context after the reverse tunnel's Serve call had returned found it not done *)
+Definition mon_ctx_after_end (tr : trace) : list failure :=
+  match filter (fun e => match snd e with ServeRet t _ _ => N.eqb t 0 | _ => false end) tr with
+  | [] => []
+  | (e, _) :: _ =>
+      flat_map (fun x => match x with
+        | (a, Ret (Hx r) OCtx ROk _ _ _ _ _ _ _) => if e <? a then fl 903 a (zr r) 0 else []
+        | _ => [] end) tr
+  end.
+
 (* ---------- a panic or a duplicate handler start is always a failure (C09 / C08) ---------- *)
 Definition mon_panic (tr : trace) : list failure :=
+  mon_ctx_after_end tr ++
   flat_map (fun e => match e with (a, Panic) => fl 901 a 0 0 | (a, HarnessFail c x y) => fl c a x y | _ => [] end) tr.
